@@ -148,15 +148,15 @@ var metas = map[string]propMeta{
 	"C05": {quickRuns: 6000, thoroughSec: 600, batch: 500, level: "exploration"},
 	"C06": {node: true, quickRuns: 5000, thoroughSec: 600, batch: 300, level: "fault_enumeration"},
 	"C07": {quickRuns: 6000, thoroughSec: 600, batch: 400, level: "exploration"},
-	"C08": {node: true, quickRuns: 4000, thoroughSec: 900, batch: 250, level: "exploration"},
-	"C09": {node: true, quickRuns: 1300, thoroughSec: 900, batch: 150, level: "exploration"},
-	"C10": {node: true, quickRuns: 4000, thoroughSec: 1200, batch: 200, level: "exploration"},
-	"C11": {node: true, quickRuns: 3500, thoroughSec: 1200, batch: 200, level: "exploration"},
-	"C12": {node: true, quickRuns: 3500, thoroughSec: 1200, batch: 200, level: "exploration"},
-	"C13": {node: true, quickRuns: 1800, thoroughSec: 1200, batch: 200, level: "exploration"},
-	"C14": {node: true, quickRuns: 4000, thoroughSec: 1200, batch: 200, level: "exploration"},
-	"C15": {node: true, quickRuns: 800, thoroughSec: 1200, batch: 4, level: "exploration", race: true},
-	"C16": {node: true, quickRuns: 2200, thoroughSec: 1200, batch: 150, level: "exploration"},
+	"C08": {node: true, quickRuns: 4000, thoroughSec: 720, batch: 250, level: "exploration"},
+	"C09": {node: true, quickRuns: 1300, thoroughSec: 720, batch: 150, level: "exploration"},
+	"C10": {node: true, quickRuns: 4000, thoroughSec: 720, batch: 200, level: "exploration"},
+	"C11": {node: true, quickRuns: 3500, thoroughSec: 720, batch: 200, level: "exploration"},
+	"C12": {node: true, quickRuns: 3500, thoroughSec: 720, batch: 200, level: "exploration"},
+	"C13": {node: true, quickRuns: 1800, thoroughSec: 720, batch: 200, level: "exploration"},
+	"C14": {node: true, quickRuns: 4000, thoroughSec: 720, batch: 200, level: "exploration"},
+	"C15": {node: true, quickRuns: 800, thoroughSec: 720, batch: 4, level: "exploration", race: true},
+	"C16": {node: true, quickRuns: 2200, thoroughSec: 720, batch: 150, level: "exploration"},
 	"C20": {quickRuns: 3000, thoroughSec: 600, batch: 300, level: "fault_enumeration"},
 }
 
